@@ -39,6 +39,12 @@ pub struct Ctx {
 
 pub const VERIF: &str = "/verif";
 
+/// where evidence and replay files are written (AVTMC_OUT overrides, for side runs
+/// that must not touch the committed evidence)
+pub fn out_dir() -> String {
+    std::env::var("AVTMC_OUT").unwrap_or_else(|_| VERIF.to_string())
+}
+
 #[derive(Default, Clone)]
 pub struct KnownFindings {
     /// finding id -> (property, description)
@@ -351,7 +357,7 @@ pub fn write_evidence(ctx: &Ctx, rep: &Report) {
         "wall_s": ctx.start.elapsed().as_secs_f64(),
         "violations": rep.violations,
     });
-    let dir = format!("{}/evidence", VERIF);
+    let dir = format!("{}/evidence", out_dir());
     std::fs::create_dir_all(&dir).ok();
     std::fs::write(
         format!("{}/{}.json", dir, ctx.id),
